@@ -283,6 +283,17 @@ Lemma pinned_unflatten_refuted :
   exists s bytes, nulfree bytes /\ fst (unflatten1 pM pTH pPG pOV 170 false s bytes) = StOk.
 Proof. exists (abc1 false 0), [97; 98; 99]. split; [repeat constructor; discriminate|vm_compute; reflexivity]. Qed.
 
+(* F32: on the pinned tree GetDistanceTo(other, maxResult) left its loop as soon as the last column reached maxResult,
+   although the distance can still shrink: "abc" -> "xabc" is one insertion, but with maxResult = 2 the answer was 2 *)
+Lemma pinned_distance_refuted :
+  exists a b max, l0_distance a b max < max /\ distance_code false a b max = max.
+Proof. exists [97; 98; 99], [120; 97; 98; 99], 2. vm_compute. split; reflexivity. Qed.
+Example fixed_distance_same_witness :
+  distance_code true [97; 98; 99] [120; 97; 98; 99] 2 = l0_distance [97; 98; 99] [120; 97; 98; 99] 2 /\
+  distance_code true [107;105;116;116;101;110] [115;105;116;116;105;110;103] 3 = 3 /\
+  distance_code true [107;105;116;116;101;110] [115;105;116;116;105;110;103] NOLIMIT = 3.
+Proof. vm_compute. repeat split. Qed.
+
 (* F31: on the pinned tree ShrinkToFit(2^32-1) cuts the last character off a small-buffer String, and leaves a
    heap String whose length equals its capacity (the terminator lies outside the buffer) *)
 Lemma pinned_shrink_refuted :
